@@ -26,6 +26,7 @@ def run(ctx):
     rule_union(F, R)
     rule_len(F, R)
     rule_source(F, R)
+    rule_annotate(F, R)
     from . import c08
     c08.rule_partition(F, R)   # C17.partition: spans and expression are shifted by the same offset
     if "all" in ctx.configs():
@@ -183,3 +184,44 @@ def rule_miette(F, R):
 def _n(v):
     v = strip(v)
     return v.name if isinstance(v, Sym) else repr(v)
+
+
+def rule_annotate(F, R):
+    """C17.annotate (PROV): the annotation the parser gives a token is the byte span of the text the token's parser
+    consumed.  parse::annotate is evaluated with the parser combinators it uses replaced by models (pori::span yields
+    ((start, byte length), output); nom's consumed yields (consumed input, output)); the closure it maps over the result
+    is then applied to a consumption of the multi-byte text `愛b` at byte 2 and must build Token{annotation: (2, 4)}."""
+    from ..teval import Closure, PyFn
+    it = F.find("token::parse::parse::annotate")
+    seen = []
+    text, loc = "愛b", 2
+    inp = Adt("input-model", "Input", {"location": loc, "text": text})
+    stubs = {
+        "pori::span": lambda I, a, fn, e: Adt("parser-model", "Span", {}),
+        "nom::combinator::consumed": lambda I, a, fn, e: Adt("parser-model", "Consumed", {}),
+        "nom::combinator::recognize": lambda I, a, fn, e: Adt("parser-model", "Recognize", {}),
+        "nom::combinator::map": lambda I, a, fn, e: (seen.append((strip(a[0]), a[1])), Sym("mapped-parser"))[1],
+    }
+    I = Interp(F, stubs)
+    I.explore(lambda: I.call_item(it, [Sym("parser")], inst=False))
+    if len(seen) != 1 or not isinstance(seen[0][0], Adt) or seen[0][0].path != "parser-model":
+        R.fail("C17.annotate", "parse::annotate", "the way parse::annotate obtains the span of a token is not understood (expected "
+               "combinator::map over pori::span or nom's consumed): %r" % (seen[:1],), it.where())
+        return
+    pm, f = seen[0]
+    out = {"Span": Tup([Tup([loc, len(text.encode())]), Sym("topology")]),
+           "Consumed": Tup([inp, Sym("topology")]), "Recognize": inp}[pm.variant]
+    input_stubs = {
+        "pori::Location::location": lambda I2, a, fn, e: strip(a[0]).fields["location"] if isinstance(strip(a[0]), Adt) and strip(a[0]).path == "input-model" else I2.top("location of %r" % (strip(a[0]),)),
+        "std::ops::Deref::deref": lambda I2, a, fn, e: strip(a[0]).fields["text"] if isinstance(strip(a[0]), Adt) and strip(a[0]).path == "input-model" else strip(a[0]),
+        "std::convert::AsRef::as_ref": lambda I2, a, fn, e: strip(a[0]).fields["text"] if isinstance(strip(a[0]), Adt) and strip(a[0]).path == "input-model" else strip(a[0]),
+        "nom::InputLength::input_len": lambda I2, a, fn, e: len(strip(a[0]).fields["text"].encode()) if isinstance(strip(a[0]), Adt) and strip(a[0]).path == "input-model" else I2.top("input_len"),
+    }
+    I2 = Interp(F, input_stubs)
+    res = strip(tabulate.single(I2.explore(lambda: I2.call_value(f, [out]))))
+    ann = strip(res.fields.get("annotation")) if isinstance(res, Adt) and res.path == "token::Token" else None
+    got = tuple(strip(x) for x in ann.items) if isinstance(ann, Tup) else None
+    want = (loc, len(text.encode()))
+    R.check(got == want, "C17.annotate", "parse::annotate", "a token consumed as `%s` at byte %d is annotated (%d, %d): start and length in bytes" % (text, loc, want[0], want[1]), it.where(),
+            fail_msg="a token whose parser consumes `%s` (4 bytes, 2 characters) at byte %d is annotated %r (result %r), expected the byte span %r: spans "
+                     "index the expression by bytes" % (text, loc, got, res, want))
